@@ -287,13 +287,17 @@ fn session_scn(sess: Sess, full: bool, pairs: bool) -> ChatScn {
         ..Default::default()
     };
     // slot 0 = actor "me" (registered in most sessions), 1 = bob, 2,3 = bystanders yan, zed in #z
-    let mut parts = vec![part(1, "bob", "bobby", "bu"), part(2, "yan", "yanni", "yu"), part(3, "zed", "zeddy", "zu")];
+    // zed registers with an empty real name (the server accepts it): whatever compares real
+    // names compares an empty text
+    let mut parts = vec![part(1, "bob", "bobby", "bu"), part(2, "yan", "yanni", "yu"), crate::scn::late_part(3, "zed", "zeddy", "zu")];
     let actor_registered = !matches!(sess, Sess::Unregistered | Sess::MidCap);
     if actor_registered {
         parts.insert(0, part(0, "me", "myself", "au"));
     }
     let mut s = ChatScn::new(&format!("c05-{:?}{}", sess, if pairs { if full { "-pairs" } else { "-minipairs" } } else { "" }), cfg, parts, 0);
     s.slots = 4;
+    s.prelude.push((3, "NICK zed".into()));
+    s.prelude.push((3, "USER zu 8 * :".into()));
     s.prelude.push((2, "JOIN #z".into()));
     s.prelude.push((3, "JOIN #z".into()));
     // the bystanders' channel is invite-only and moderated: the actor, an outsider there, names
@@ -595,6 +599,18 @@ fn still_serving(_scn: &ChatScn, w: &mut World, _pre: &View, obs: &StepObs, post
                 let plain = !n.is_empty() && n.chars().all(|c| c.is_ascii_alphanumeric());
                 if plain && post.m.users.contains_key(n) && !targets.contains(&n.to_string()) {
                     targets.push(n.to_string());
+                }
+            }
+        }
+        // a wildcard query that begins with a literal and matches nobody: every user's
+        // nickname, source and real name (which may be empty) is compared with it
+        w.take_lines(2);
+        match w.send(2, "WHO q*") {
+            Err(e) => out.push(finding("stalled", format!("bystander stalled on WHO q* after {:?}: {}", obs.act.render(), e.0))),
+            Ok(()) => {
+                let ls = w.take_lines(2);
+                if w.conns[2].life == Life::Live && !ls.iter().any(|l| l.contains(" 315 ")) {
+                    out.push(finding("bystander-deprived", format!("bystander's WHO q* was not answered after {:?}: {:?}", obs.act.render(), ls)));
                 }
             }
         }
